@@ -1,11 +1,687 @@
+//! C06 correspondence harness: real tachys `to_html()` and real leptos_meta `inject_meta_context`.
+//!
+//! Ops (encoding: hx_c06::enc):
+//!   case <n>
+//!   view <nodes>              build the views with the tachys builder API, `to_html()`
+//!   head <title> <meta>*      `<Title text=…/>`, `<Meta …/>` under a `ServerMetaContext`, then
+//!                             `inject_meta_context` on a one-chunk stream; observable = what ends
+//!                             up between `<head>` and `</head>`
+//!     <title> = `-` | `t` hex ;  <meta> = `m` kind `,` hex `,` hex, kind ∈ n p c h i
+//! Output: `<hex of the emitted HTML> ## ok | fail <why>`; the verdict re-parses the *real* output
+//! with the independent tokenizer/tree builder (hx_c06::html) and compares with the expected tree
+//! derived from the op (hx_c06::enc::expected).
+use futures::StreamExt;
+use hx_c06::enc::{self, Attr, Node};
+use hx_c06::html::{self, Tree};
+use hx_common::*;
 use leptos::prelude::*;
-use leptos::tachys::html::element::*;
+use leptos::tachys::html::attribute::any_attribute::{AnyAttribute, IntoAnyAttribute};
+use leptos::tachys::html::attribute::custom::custom_attribute;
+use leptos::tachys::html::attribute as at;
+use leptos::tachys::html::class::class as class_attr;
+use leptos::tachys::html::element as el;
+use leptos::tachys::html::element::{custom, inner_html, ElementChild};
+use leptos::tachys::html::style::style as style_attr;
+use leptos::tachys::view::add_attr::AddAnyAttr;
+use leptos::tachys::view::any_view::{AnyView, IntoAny};
 use leptos::tachys::view::RenderHtml;
+use std::panic::{catch_unwind, AssertUnwindSafe};
+
+const MAX_KIDS: usize = 6;
+
+fn leak(s: &str) -> &'static str {
+    Box::leak(s.to_string().into_boxed_str())
+}
+
+fn build_attr(a: &Attr) -> AnyAttribute {
+    match a {
+        // a few typed attribute functions, the rest through `.attr(name, value)`
+        Attr::Plain(n, v) => match n.as_str() {
+            "id" => at::id(v.clone()).into_any_attr(),
+            "href" => at::href(v.clone()).into_any_attr(),
+            "title" => at::title(v.clone()).into_any_attr(),
+            "alt" => at::alt(v.clone()).into_any_attr(),
+            "value" => at::value(v.clone()).into_any_attr(),
+            "content" => at::content(v.clone()).into_any_attr(),
+            _ => custom_attribute(n.clone(), v.clone()).into_any_attr(),
+        },
+        Attr::Bool(n, b) => match n.as_str() {
+            "hidden" => at::hidden(*b).into_any_attr(),
+            _ => custom_attribute(n.clone(), *b).into_any_attr(),
+        },
+        Attr::Class(v) => class_attr(v.clone()).into_any_attr(),
+        Attr::ClassToggle(n, b) => class_attr((leak(n), *b)).into_any_attr(),
+        Attr::Style(v) => style_attr(v.clone()).into_any_attr(),
+        Attr::StyleKV(n, v) => style_attr((n.clone(), v.clone())).into_any_attr(),
+        Attr::InnerHtml(v) => inner_html(v.clone()).into_any_attr(),
+    }
+}
+
+macro_rules! with_kids {
+    ($el:expr, $kids:expr) => {{
+        let el = $el;
+        let mut k = $kids.into_iter();
+        match k.len() {
+            0 => el.into_any(),
+            1 => el.child(k.next().unwrap()).into_any(),
+            2 => el.child(k.next().unwrap()).child(k.next().unwrap()).into_any(),
+            3 => el.child(k.next().unwrap()).child(k.next().unwrap()).child(k.next().unwrap()).into_any(),
+            4 => el
+                .child(k.next().unwrap())
+                .child(k.next().unwrap())
+                .child(k.next().unwrap())
+                .child(k.next().unwrap())
+                .into_any(),
+            5 => el
+                .child(k.next().unwrap())
+                .child(k.next().unwrap())
+                .child(k.next().unwrap())
+                .child(k.next().unwrap())
+                .child(k.next().unwrap())
+                .into_any(),
+            _ => el
+                .child(k.next().unwrap())
+                .child(k.next().unwrap())
+                .child(k.next().unwrap())
+                .child(k.next().unwrap())
+                .child(k.next().unwrap())
+                .child(k.next().unwrap())
+                .into_any(),
+        }
+    }};
+}
+
+macro_rules! by_tag {
+    ($tag:expr, $attrs:expr, $kids:expr; [$($name:ident),*]; [$($void:ident),*]) => {
+        match $tag {
+            $(stringify!($name) => Some(with_kids!(el::$name().add_any_attr($attrs), $kids)),)*
+            $(stringify!($void) => if $kids.is_empty() { Some(el::$void().add_any_attr($attrs).into_any()) } else { None },)*
+            t if html::is_custom_tag(t) => Some(with_kids!(custom(t.to_string()).add_any_attr($attrs), $kids)),
+            _ => None,
+        }
+    };
+}
+
+fn build(n: &Node) -> Option<AnyView> {
+    match n {
+        Node::Text(s) => Some(s.clone().into_any()),
+        Node::Elem { tag, attrs, kids } => {
+            if kids.len() > MAX_KIDS {
+                return None;
+            }
+            let attrs: Vec<AnyAttribute> = attrs.iter().map(build_attr).collect();
+            let kids: Vec<AnyView> = kids.iter().map(build).collect::<Option<_>>()?;
+            by_tag!(tag.as_str(), attrs, kids;
+                [div, span, section, article, main, header, footer, aside, nav, blockquote, figure, label,
+                 b, i, em, strong, small, code, p, a, h1, h2, h3, button,
+                 title, textarea, script, style, noscript];
+                [area, base, br, col, embed, hr, img, input, link, meta, source, track, wbr])
+        }
+    }
+}
+
+fn render_view(nodes: &[Node]) -> Option<String> {
+    if nodes.len() > MAX_KIDS {
+        return None;
+    }
+    let views: Vec<AnyView> = nodes.iter().map(build).collect::<Option<_>>()?;
+    let mut k = views.into_iter();
+    // a tuple of views, as a fragment / component body is
+    Some(match k.len() {
+        0 => String::new(),
+        1 => (k.next().unwrap(),).to_html(),
+        2 => (k.next().unwrap(), k.next().unwrap()).to_html(),
+        3 => (k.next().unwrap(), k.next().unwrap(), k.next().unwrap()).to_html(),
+        4 => (k.next().unwrap(), k.next().unwrap(), k.next().unwrap(), k.next().unwrap()).to_html(),
+        5 => (k.next().unwrap(), k.next().unwrap(), k.next().unwrap(), k.next().unwrap(), k.next().unwrap())
+            .to_html(),
+        _ => (
+            k.next().unwrap(),
+            k.next().unwrap(),
+            k.next().unwrap(),
+            k.next().unwrap(),
+            k.next().unwrap(),
+            k.next().unwrap(),
+        )
+            .to_html(),
+    })
+}
+
+#[derive(Clone, Debug)]
+struct MetaOp {
+    kind: char,
+    a: String,
+    b: String,
+}
+
+const SHELL_PRE: &str = "<!DOCTYPE html><html><head>";
+const SHELL_POST: &str = "</head><body></body></html>";
+
+/// the real leptos_meta SSR path: components register into the ServerMetaContext while the body
+/// renders; the integration then calls `inject_meta_context` on the HTML stream
+fn render_head(title: &Option<String>, metas: &[MetaOp]) -> Option<String> {
+    let owner = Owner::new();
+    let chunk = owner.with(|| {
+        let (ctx, output) = leptos_meta::ServerMetaContext::new();
+        provide_context(ctx);
+        let mut body = String::new();
+        if let Some(t) = title {
+            let v = leptos_meta::Title(leptos_meta::TitleProps::builder().text(t.clone()).build());
+            body.push_str(&v.into_view().to_html());
+        }
+        for m in metas {
+            let (a, b) = (m.a.clone(), m.b.clone());
+            let props = match m.kind {
+                'n' => leptos_meta::MetaProps::builder().name(a).content(b).build(),
+                'p' => leptos_meta::MetaProps::builder().property(a).content(b).build(),
+                'c' => leptos_meta::MetaProps::builder().charset(a).build(),
+                'h' => leptos_meta::MetaProps::builder().http_equiv(a).content(b).build(),
+                _ => leptos_meta::MetaProps::builder().itemprop(a).content(b).build(),
+            };
+            body.push_str(&leptos_meta::Meta(props).into_view().to_html());
+        }
+        // the app shell's first chunk: <MetaTags/> renders the marker
+        let shell = format!("{SHELL_PRE}<!--HEAD-->{SHELL_POST}");
+        debug_assert!(body.is_empty());
+        let stream = futures::stream::iter(vec![shell]);
+        futures::executor::block_on(async move {
+            output.inject_meta_context(stream).await.collect::<Vec<String>>().await.concat()
+        })
+    });
+    let inner = chunk.strip_prefix(SHELL_PRE)?.strip_suffix(SHELL_POST)?;
+    Some(inner.to_string())
+}
+
+fn meta_node(m: &MetaOp) -> Node {
+    let p = |n: &str, v: &String| Attr::Plain(n.into(), v.clone());
+    let attrs = match m.kind {
+        'n' => vec![p("name", &m.a), p("content", &m.b)],
+        'p' => vec![p("property", &m.a), p("content", &m.b)],
+        'c' => vec![p("charset", &m.a)],
+        'h' => vec![p("http-equiv", &m.a), p("content", &m.b)],
+        _ => vec![p("itemprop", &m.a), p("content", &m.b)],
+    };
+    Node::Elem { tag: "meta".into(), attrs, kids: vec![] }
+}
+
+fn expected_head(title: &Option<String>, metas: &[MetaOp]) -> Vec<Tree> {
+    let mut out = vec![];
+    if let Some(t) = title {
+        let kids = if t.is_empty() { vec![] } else { vec![Tree::Text(t.clone())] };
+        out.push(Tree::Elem { tag: "title".into(), attrs: vec![], kids });
+    }
+    out.push(Tree::Comment("HEAD".into()));
+    out.extend(enc::expected(&metas.iter().map(meta_node).collect::<Vec<_>>()));
+    out
+}
+
+fn verdict(html_out: &str, want: &[Tree]) -> String {
+    match html::parse(html_out) {
+        Some(got) if got == want => "ok".into(),
+        Some(_) => "fail structure-differs".into(),
+        None => "fail not-in-subset".into(),
+    }
+}
+
+fn unhex_field(h: &str) -> Option<String> {
+    if h.is_empty() {
+        Some(String::new())
+    } else {
+        unhex_str(h)
+    }
+}
+
+fn parse_meta(w: &str) -> Option<MetaOp> {
+    let mut cs = w.chars();
+    if cs.next()? != 'm' {
+        return None;
+    }
+    let kind = cs.next()?;
+    if !"npchi".contains(kind) {
+        return None;
+    }
+    let rest = cs.as_str().strip_prefix(',')?;
+    let (a, b) = rest.split_once(',')?;
+    if b.contains(',') {
+        return None;
+    }
+    Some(MetaOp { kind, a: unhex_field(a)?, b: unhex_field(b)? })
+}
+
+fn op(line: &str, tags: &std::collections::HashMap<String, String>) -> String {
+    let w: Vec<&str> = line.split_whitespace().collect();
+    match w.as_slice() {
+        ["case", n] => match tags.get(*n) {
+            Some(t) if !t.is_empty() => format!("case {n} tags={t}"),
+            _ => format!("case {n}"),
+        },
+        ["view", e] => {
+            let Some(nodes) = enc::decode(e) else { return "bad-op".into() };
+            match catch_unwind(AssertUnwindSafe(|| render_view(&nodes))) {
+                Ok(Some(out)) => format!("{} ## {}", hex(out.as_bytes()), verdict(&out, &enc::expected(&nodes))),
+                Ok(None) => "bad-op".into(),
+                Err(_) => "panic ## fail panic".into(),
+            }
+        }
+        ["head", t, ms @ ..] => {
+            let title = if *t == "-" {
+                None
+            } else if let Some(h) = t.strip_prefix('t') {
+                let Some(s) = unhex_field(h) else { return "bad-op".into() };
+                Some(s)
+            } else {
+                return "bad-op".into();
+            };
+            let Some(metas) = ms.iter().map(|m| parse_meta(m)).collect::<Option<Vec<_>>>() else {
+                return "bad-op".into();
+            };
+            match catch_unwind(AssertUnwindSafe(|| render_head(&title, &metas))) {
+                Ok(Some(out)) => {
+                    format!("{} ## {}", hex(out.as_bytes()), verdict(&out, &expected_head(&title, &metas)))
+                }
+                Ok(None) => "shell-lost ## fail shell-lost".into(),
+                Err(_) => "panic ## fail panic".into(),
+            }
+        }
+        _ => "bad-op".into(),
+    }
+}
+
+// ---------------------------------------------------------------- generator
+
+const HOSTILE: &[&str] = &[
+    "<", ">", "&", "\"", "'", "/", "=", "`", "\u{a0}", "<!--", "-->", "]]>", "<![CDATA[", "</script", "</script>",
+    "</title>", "</title", "</textarea>", "</style>", "</noscript>", "&amp;", "&#x3c;", "&lt", "&#60;", "&quot;",
+    "é", "日本", "😀", "\u{2028}", " ", "\n", "\t", "a", "b", "x=1", "<b>", "<img src=x onerror=alert(1)>", "<!>",
+    "<!", "</", "<?", "javascript:", "\u{feff}", "\u{1}", "\u{7f}", "\u{85}", "\u{fffd}", "--", "-", "!", ";", "#",
+    "&#", "&a", "& ", "\u{3000}", "\u{10ffff}", "\u{e000}", "<script>", "<a href=\"", "\" onload=\"", "' x='",
+    "\u{c}", "&gt", "<p>", "</div>", "<textarea>",
+];
+const DIRTY: &[&str] = &["\0", "\r", "\r\n", "a\0b", "\0<"];
+const BENIGN: &[&str] = &["a", "b", "hello", "x1", "z", "ok", "var a=1;", "p{color:red}", " ", "A", "é", "日本"];
+
+fn pk(r: &mut Rng, xs: &[&'static str]) -> &'static str {
+    xs[r.below(xs.len())]
+}
+
+struct Ctx {
+    raw_text: bool, // may raw-text elements get string children?
+    dirty: bool,    // may strings contain NUL / CR?
+    tags: std::collections::BTreeSet<String>,
+}
+
+fn gen_str(r: &mut Rng, c: &mut Ctx) -> String {
+    let mut s = String::new();
+    match r.below(10) {
+        0 => {} // empty
+        1 | 2 => s.push_str(pk(r, BENIGN)),
+        3 => {
+            // arbitrary scalar values
+            for _ in 0..r.range(1, 4) {
+                let cp = match r.below(4) {
+                    0 => r.range(0x20, 0x7e) as u32,
+                    1 => r.range(0xa0, 0x7ff) as u32,
+                    2 => r.range(0x800, 0xffff) as u32,
+                    _ => r.range(0x10000, 0x10ffff) as u32,
+                };
+                s.push(char::from_u32(cp).unwrap_or('\u{fffd}'));
+            }
+            c.tags.insert("unicode".into());
+        }
+        _ => {
+            for _ in 0..r.range(1, 3) {
+                if c.dirty && r.chance(1, 3) {
+                    let d = pk(r, DIRTY);
+                    c.tags.insert(if d.contains('\0') { "nul".into() } else { "cr".into() });
+                    s.push_str(d);
+                } else {
+                    s.push_str(pk(r, HOSTILE));
+                }
+            }
+            c.tags.insert("hostile".into());
+        }
+    }
+    if s.is_empty() {
+        c.tags.insert("empty-str".into());
+    }
+    s
+}
+
+const ATTR_NAMES: &[&str] =
+    &["id", "title", "href", "value", "alt", "lang", "data-x", "aria-label", "name", "content", "xlink:href", "data_y"];
+const BOOL_NAMES: &[&str] = &["hidden", "disabled", "checked"];
+const GENERIC: &[&str] = html::GENERIC;
+const CUSTOM: &[&str] = &["x-foo", "my-el2"];
+const VOIDS: &[&str] = &["br", "hr", "img", "input", "meta", "link", "wbr", "source", "area", "embed", "track", "base"];
+const RAWS: &[&str] = &["textarea", "script", "style", "noscript"];
+const INNER: &[&str] = &["<b>x</b>", "a &amp; b", "<span class=\"q\">t</span><!--c-->", "plain", "<i>1</i><i>2</i>"];
+
+fn gen_attrs(r: &mut Rng, c: &mut Ctx, allow_inner: bool) -> Vec<Attr> {
+    let mut out = vec![];
+    let mut used: Vec<&str> = vec![];
+    for _ in 0..r.below(4) {
+        match r.below(9) {
+            0 | 1 | 2 => {
+                let n = pk(r, ATTR_NAMES);
+                if used.contains(&n) {
+                    continue;
+                }
+                used.push(n);
+                out.push(Attr::Plain(n.into(), gen_str(r, c)));
+                c.tags.insert("attr".into());
+            }
+            3 => {
+                let n = pk(r, BOOL_NAMES);
+                if used.contains(&n) {
+                    continue;
+                }
+                used.push(n);
+                out.push(Attr::Bool(n.into(), r.chance(2, 3)));
+                c.tags.insert("bool-attr".into());
+            }
+            4 => {
+                out.push(Attr::Class(gen_str(r, c)));
+                c.tags.insert("class".into());
+            }
+            5 => {
+                out.push(Attr::ClassToggle(gen_str(r, c), r.chance(2, 3)));
+                c.tags.insert("class-toggle".into());
+            }
+            6 => {
+                out.push(Attr::Style(gen_str(r, c)));
+                c.tags.insert("style".into());
+            }
+            7 => {
+                out.push(Attr::StyleKV(pk(r, &["color", "--v", "width"]).to_string(), gen_str(r, c)));
+                c.tags.insert("style-kv".into());
+            }
+            _ => {
+                if allow_inner && !out.iter().any(|a| matches!(a, Attr::InnerHtml(_))) {
+                    out.push(Attr::InnerHtml(pk(r, INNER).to_string()));
+                    c.tags.insert("inner-html".into());
+                }
+            }
+        }
+    }
+    out
+}
+
+fn gen_kids(r: &mut Rng, c: &mut Ctx, depth: usize, anc: &mut Vec<&'static str>, max: usize) -> Vec<Node> {
+    let n = r.below(max + 1);
+    let mut out: Vec<Node> = vec![];
+    for _ in 0..n {
+        let last_text = matches!(out.last(), Some(Node::Text(_)));
+        let pick = if depth == 0 { r.below(4) } else { r.below(10) };
+        match pick {
+            0..=3 => {
+                if last_text {
+                    c.tags.insert("adjacent-text".into());
+                }
+                out.push(Node::Text(gen_str(r, c)));
+                c.tags.insert("text".into());
+            }
+            4..=6 => {
+                let tag: &'static str = if r.chance(1, 8) { pk(r, CUSTOM) } else { pk(r, GENERIC) };
+                let a: Vec<&str> = anc.iter().rev().copied().collect();
+                if !html::nest_ok(tag, &a) {
+                    continue;
+                }
+                let inner = r.chance(1, 10);
+                let attrs = gen_attrs(r, c, inner);
+                let has_inner = attrs.iter().any(|a| matches!(a, Attr::InnerHtml(_)));
+                anc.push(tag);
+                let kids = if has_inner { vec![] } else { gen_kids(r, c, depth - 1, anc, 4) };
+                anc.pop();
+                if html::is_custom_tag(tag) {
+                    c.tags.insert("custom-el".into());
+                }
+                c.tags.insert(format!("depth{}", 5 - depth));
+                out.push(Node::Elem { tag: tag.into(), attrs, kids });
+            }
+            7 => {
+                let tag = pk(r, VOIDS);
+                let a: Vec<&str> = anc.iter().rev().copied().collect();
+                if !html::nest_ok(tag, &a) {
+                    continue;
+                }
+                c.tags.insert("void".into());
+                out.push(Node::Elem { tag: tag.into(), attrs: gen_attrs(r, c, false), kids: vec![] });
+            }
+            8 => {
+                let tag = pk(r, RAWS);
+                let attrs = gen_attrs(r, c, false);
+                let kids: Vec<Node> = if c.raw_text {
+                    c.tags.insert("raw-text-child".into());
+                    (0..r.range(1, 2)).map(|_| Node::Text(gen_str(r, c))).collect()
+                } else if r.chance(1, 3) {
+                    // harmless content: exercised on the passing side
+                    c.tags.insert("raw-benign-child".into());
+                    vec![Node::Text(pk(r, &["a", "var a=1;", "p{color:red}", "x y"]).to_string())]
+                } else {
+                    vec![]
+                };
+                c.tags.insert("raw-el".into());
+                out.push(Node::Elem { tag: tag.into(), attrs, kids });
+            }
+            _ => {
+                let kids = if r.chance(3, 4) { vec![Node::Text(gen_str(r, c))] } else { vec![] };
+                c.tags.insert("title-el".into());
+                out.push(Node::Elem { tag: "title".into(), attrs: gen_attrs(r, c, false), kids });
+            }
+        }
+    }
+    out
+}
+
+fn small_scope() -> Vec<(String, String)> {
+    // every hostile atom in every kind of string position
+    let mut out = vec![];
+    let el = |tag: &str, attrs: Vec<Attr>, kids: Vec<Node>| Node::Elem { tag: tag.into(), attrs, kids };
+    for (i, a) in HOSTILE.iter().chain(DIRTY.iter()).enumerate() {
+        let s = a.to_string();
+        let t = || Node::Text(s.clone());
+        let views: Vec<(&str, Vec<Node>)> = vec![
+            ("text", vec![el("div", vec![], vec![t()])]),
+            ("adjacent-text", vec![el("p", vec![], vec![t(), t(), Node::Text(String::new()), t()])]),
+            ("attr", vec![el("a", vec![Attr::Plain("href".into(), s.clone())], vec![])]),
+            ("attr", vec![el("input", vec![Attr::Plain("value".into(), s.clone()), Attr::Bool("disabled".into(), true)], vec![])]),
+            ("class", vec![el("span", vec![Attr::Class(s.clone()), Attr::ClassToggle(s.clone(), true), Attr::Class("k".into())], vec![])]),
+            ("style", vec![el("div", vec![Attr::Style(s.clone()), Attr::StyleKV("color".into(), s.clone())], vec![])]),
+            ("title-el", vec![el("title", vec![], vec![t()])]),
+            ("raw-text-child", vec![el("textarea", vec![], vec![t()])]),
+            ("raw-text-child", vec![el("script", vec![], vec![t()])]),
+            ("raw-text-child", vec![el("style", vec![], vec![t()])]),
+            ("raw-text-child", vec![el("noscript", vec![], vec![t()])]),
+            ("custom-el", vec![el("x-foo", vec![Attr::Plain("data-x".into(), s.clone())], vec![t()]), t()]),
+        ];
+        for (j, (tag, v)) in views.into_iter().enumerate() {
+            out.push((format!("case ss{i}-{j}\nview {}", enc::encode(&v)), format!("small-scope,{tag}")));
+        }
+        out.push((format!("case ssh{i}\nhead t{} mn,{},{} mc,{},", enc::hx(&s), enc::hx(&s), enc::hx(&s), enc::hx(&s)), "small-scope,head-title,meta".into()));
+    }
+    out
+}
+
+fn gen(seed: u64, n: usize, path: &str) -> std::io::Result<()> {
+    use std::io::Write;
+    let mut r = Rng::new(seed);
+    let mut f = std::io::BufWriter::new(std::fs::File::create(path)?);
+    for (ops, _) in small_scope() {
+        writeln!(f, "{ops}")?;
+    }
+    for i in 0..n {
+        let mut c = Ctx { raw_text: r.chance(1, 6), dirty: r.chance(1, 8), tags: Default::default() };
+        writeln!(f, "case {i}")?;
+        if r.chance(1, 6) {
+            // head
+            let title = match r.below(4) {
+                0 => None,
+                1 => Some(pk(&mut r, BENIGN).to_string()),
+                _ => Some(gen_str(&mut r, &mut c)),
+            };
+            let mut line = String::from("head ");
+            match &title {
+                None => line.push('-'),
+                Some(t) => {
+                    c.tags.insert("head-title".into());
+                    line.push('t');
+                    line.push_str(&enc::hx(t));
+                }
+            }
+            for _ in 0..r.below(4) {
+                let k = *r.pick(&['n', 'p', 'c', 'h', 'i']);
+                let a = if r.chance(1, 2) { pk(&mut r, &["description", "og:title", "utf-8", "refresh"]).to_string() } else { gen_str(&mut r, &mut c) };
+                let b = if k == 'c' { String::new() } else { gen_str(&mut r, &mut c) };
+                line.push_str(&format!(" m{k},{},{}", enc::hx(&a), enc::hx(&b)));
+                c.tags.insert("meta".into());
+            }
+            c.tags.insert("head".into());
+            writeln!(f, "{line}")?;
+        } else {
+            let mut anc: Vec<&'static str> = vec![];
+            let mut v = gen_kids(&mut r, &mut c, 4, &mut anc, 3);
+            if v.is_empty() {
+                v.push(Node::Text(gen_str(&mut r, &mut c)));
+                c.tags.insert("text".into());
+            }
+            writeln!(f, "view {}", enc::encode(&v))?;
+        }
+    }
+    f.flush()
+}
+
+fn str_tags(s: &str, t: &mut std::collections::BTreeSet<String>) {
+    if s.is_empty() {
+        t.insert("empty-str".into());
+    }
+    if s.contains('\0') {
+        t.insert("nul".into());
+    }
+    if s.contains('\r') {
+        t.insert("cr".into());
+    }
+    if s.chars().any(|c| "<>&\"'/=`".contains(c)) {
+        t.insert("markup-chars".into());
+    }
+    if s.contains("</") || s.contains("<!--") || s.contains("-->") || s.contains("]]>") {
+        t.insert("closers".into());
+    }
+    if s.contains("&#") || s.contains("&amp") || s.contains("&lt") || s.contains("&gt") || s.contains("&quot") {
+        t.insert("entity-like".into());
+    }
+    if !s.is_ascii() {
+        t.insert("non-ascii".into());
+    }
+}
+
+fn node_tags(nodes: &[Node], depth: usize, t: &mut std::collections::BTreeSet<String>) {
+    let mut prev_text = false;
+    for n in nodes {
+        match n {
+            Node::Text(s) => {
+                t.insert("text".into());
+                if prev_text {
+                    t.insert("adjacent-text".into());
+                }
+                str_tags(s, t);
+                prev_text = true;
+            }
+            Node::Elem { tag, attrs, kids } => {
+                prev_text = false;
+                t.insert(format!("depth{}", depth + 1));
+                if enc::TACHYS_VOID.contains(&tag.as_str()) {
+                    t.insert("void".into());
+                } else if enc::TACHYS_RAW.contains(&tag.as_str()) {
+                    t.insert("raw-el".into());
+                    if kids.iter().any(|k| matches!(k, Node::Text(_))) {
+                        t.insert("raw-text-child".into());
+                    }
+                } else if tag == "title" {
+                    t.insert("title-el".into());
+                } else if html::is_custom_tag(tag) {
+                    t.insert("custom-el".into());
+                }
+                for a in attrs {
+                    let (k, ss): (&str, Vec<&String>) = match a {
+                        Attr::Plain(_, v) => ("attr", vec![v]),
+                        Attr::Bool(..) => ("bool-attr", vec![]),
+                        Attr::Class(v) => ("class", vec![v]),
+                        Attr::ClassToggle(n, _) => ("class-toggle", vec![n]),
+                        Attr::Style(v) => ("style", vec![v]),
+                        Attr::StyleKV(_, v) => ("style-kv", vec![v]),
+                        Attr::InnerHtml(_) => ("inner-html", vec![]),
+                    };
+                    t.insert(k.into());
+                    for s in ss {
+                        str_tags(s, t);
+                    }
+                }
+                node_tags(kids, depth + 1, t);
+            }
+        }
+    }
+}
+
+fn tags_of_op(w: &[&str]) -> String {
+    let mut t = std::collections::BTreeSet::new();
+    match w {
+        ["view", e] => {
+            if let Some(nodes) = enc::decode(e) {
+                node_tags(&nodes, 0, &mut t);
+            }
+        }
+        ["head", title, ms @ ..] => {
+            t.insert("head".into());
+            if let Some(h) = title.strip_prefix('t') {
+                t.insert("head-title".into());
+                if let Some(s) = unhex_field(h) {
+                    str_tags(&s, &mut t);
+                }
+            }
+            for m in ms {
+                if let Some(m) = parse_meta(m) {
+                    t.insert("meta".into());
+                    str_tags(&m.a, &mut t);
+                    str_tags(&m.b, &mut t);
+                }
+            }
+        }
+        _ => {}
+    }
+    // a case is trivial (`plain`) when no string in it carries anything a parser could react to
+    let interesting = ["markup-chars", "closers", "entity-like", "nul", "cr", "empty-str", "non-ascii", "adjacent-text"];
+    if !t.iter().any(|x| interesting.contains(&x.as_str())) {
+        return "plain".into();
+    }
+    t.into_iter().collect::<Vec<_>>().join(",")
+}
+
 fn main() {
-    let s = "</textarea><img src=x onerror=alert(1)>".to_string();
-    println!("{}", textarea().child(s.clone()).to_html());
-    println!("{}", noscript().child(s.clone()).to_html());
-    println!("{}", title().child(s.clone()).to_html());
-    println!("{}", div().child(("a".to_string(), "".to_string(), "b<&>\"'".to_string(), span().child("x"), "y")).to_html());
-    println!("{}", div().class("a\" b").class(" c ").style("x:y").style(("color", "r\"ed".to_string())).attr("data-x", "1\"<>&'").attr("hidden", true).to_html());
+    match parse_cli() {
+        Cmd::Gen { seed, n, ops, .. } => gen(seed, n, &ops).unwrap(),
+        Cmd::Run { ops, out } => {
+            quiet_panics();
+            // first pass: tags of a case are derived from its op (positions and shapes hit)
+            let mut tags = std::collections::HashMap::new();
+            let text = std::fs::read_to_string(&ops).unwrap();
+            let mut cur: Option<String> = None;
+            for l in text.lines() {
+                let w: Vec<&str> = l.split_whitespace().collect();
+                match w.as_slice() {
+                    ["case", n] => cur = Some(n.to_string()),
+                    _ => {
+                        if let Some(n) = &cur {
+                            let t = tags_of_op(&w);
+                            let e: &mut String = tags.entry(n.clone()).or_default();
+                            if !e.is_empty() && !t.is_empty() {
+                                e.push(',');
+                            }
+                            e.push_str(&t);
+                        }
+                    }
+                }
+            }
+            run_ops(&ops, &out, |l| op(l, &tags)).unwrap()
+        }
+    }
 }
